@@ -448,6 +448,13 @@ fn gen_wrap(rng: &mut Rng) -> Case {
     if rng.chance(1, 8) {
         vars.push((format!("{}x::near", scope), "near".to_string()));
     }
+    // the scope prefix inside / at the end of a caller's variable name (not at its start)
+    if rng.chance(1, 6) {
+        vars.push((format!("tele{}::mount", scope), "infix".to_string()));
+    }
+    if rng.chance(1, 8) {
+        vars.push((format!("backup::{}", scope), "suffix".to_string()));
+    }
     let inside = [format!("{}::tmp", scope), format!("{}::os", scope), format!("{}::length", scope), format!("{}::argument::1", scope), format!("{}::arguments", scope), format!("{}::", scope)];
     let outside = ["leak".to_string(), "x".to_string(), scope.to_string(), format!("{}:", scope), format!("{}x::near", scope), "out".to_string()];
     let mut sets = vec![];
@@ -907,7 +914,24 @@ fn gen_hist(rng: &mut Rng, tier: Tier) -> Case {
     };
     tags.sort();
     tags.dedup();
-    let uvars = user_vars(rng);
+    let mut uvars = user_vars(rng);
+    // caller variables whose NAMES contain a library scope prefix without starting with it
+    // (`telescope::join_path::mount` contains `scope::join_path`): only names that START with
+    // `<scope>::` belong to the command
+    if rng.chance(1, 3) {
+        for st in &steps {
+            let name = match rng.below(4) {
+                0 => format!("telescope::{}::mount", st.alias),
+                1 => format!("backup::scope::{}::last", st.alias),
+                2 => format!("xscope::{}", st.alias),
+                _ => format!("myscope::{}::argument::1", st.alias),
+            };
+            if !uvars.iter().any(|(k, _)| *k == name) {
+                uvars.push((name, pools::word(rng, 4)));
+            }
+        }
+        tags.push("caller-name-embeds-scope");
+    }
     Case { req: mk_hist(&HistReq { form, prelude: PRELUDE.to_string(), uvars, steps }), in_domain: true, nontrivial: true, tags }
 }
 
